@@ -51,6 +51,31 @@ STATES = ["unlimited", "less", "equal", "more", "slack-less", "slack-equal", "sl
 MODES = ["explicit", "with", "set_default"]
 MODELS = ["GaussianNB", "KMeans", "StandardScaler", "LinearRegression", "PCA", "RandomForestClassifier",
           "DecisionTreeClassifier", "LogisticRegression"]
+
+
+class TaggedAccountant(BA):
+    """a user subclass with its own constructor signature and extra attributes"""
+
+    def __init__(self, epsilon=float("inf"), delta=1.0, slack=0.0, spent_budget=None, tag="tagged"):
+        self.tag = tag
+        self.notes = {}
+        super().__init__(epsilon, delta, slack, spent_budget)
+
+
+class AuditingAccountant(BA):
+    """a user subclass that overrides spend() (calling super) and keeps its own audit trail"""
+
+    def __init__(self, *a, **k):
+        self.audit = []
+        super().__init__(*a, **k)
+
+    def spend(self, epsilon, delta):
+        out = super().spend(epsilon, delta)
+        self.audit.append((epsilon, delta))
+        return out
+
+
+ACC_KINDS = {"plain": BA, "subclass": TaggedAccountant, "auditing": AuditingAccountant}
 STATE_OK_ATTRS = {"n_features_in_", "feature_names_in_", "_fit_svd_solver"}   # input-shape metadata set by sklearn's validation
 
 
@@ -69,16 +94,23 @@ def gen_scenario(r, max_cells, entry=None):
     # a nested `with other:` block entered and left between installing the target as default and the call: the default
     # in force afterwards must again be the target (also when the target has no recorded spend yet, i.e. is "falsy")
     sc["nested_with"] = sc["mode"] != "explicit" and r.chance(0.4)
+    # the accountant in force may be an instance of a user SUBCLASS of BudgetAccountant (own constructor / attributes,
+    # or an auditing spend() override); so may the previous default
+    sc["acc_kind"] = r.choice(["plain", "plain", "subclass", "auditing"])
+    sc["decoy_kind"] = r.choice(["plain", "plain", "subclass"])
     if entry in MODELS:
         sc["kind"] = "fit"
         sc["n_features"] = r.randint(1, 5)
         sc["switch_default"] = r.chance(0.7)
+        sc["config"] = gen_model_config(r, entry, sc["n_features"])
         return sc
     if entry in T.HIST_TOOLS:
         sc["kind"] = "scalar"
         sc["bins"] = r.randint(1, 6)
         sc["weights"] = r.chance(0.2)
+        sc["density"] = r.choice([None, None, True, False])
         return sc
+    sc["dtype"] = r.choice([None, None, "float"]) if entry in ("mean", "var", "std", "sum", "nanmean", "nanvar", "nanstd", "nansum") else None
     cells = r.choice([1, 2, 3, 4, 7, 9, 10, 13, 27, 50, 100, 400])
     cells = min(cells, max_cells)
     layout = r.choice(["scalar", "scalar", "axis0", "axis0", "axis1", "keepdims", "3d", "keepdims-all", "axis-scalar"])
@@ -118,6 +150,32 @@ def gen_scenario(r, max_cells, entry=None):
     return sc
 
 
+def gen_model_config(r, entry, d):
+    """keyword configuration + entry method of an estimator: every boolean switch and the rarer forms of the structural
+    parameters are enumerated — a normal return must charge epsilon exactly once whatever the configuration"""
+    b = lambda: r.chance(0.5)  # noqa: E731
+    if entry == "GaussianNB":
+        return {"method": r.choice(["fit", "fit", "partial_fit"]), "kw": {"priors": r.choice([None, None, [0.5, 0.5], [0.3, 0.7]]),
+                                                                          "var_smoothing": r.choice([1e-9, 1e-3])}}
+    if entry == "KMeans":
+        return {"method": r.choice(["fit", "fit", "fit_predict", "fit_transform"]), "kw": {"n_clusters": r.randint(1, 3)}}
+    if entry == "StandardScaler":
+        return {"method": r.choice(["fit", "partial_fit", "fit_transform"]),
+                "kw": {"with_mean": b(), "with_std": b(), "copy": b()}}
+    if entry == "LinearRegression":
+        return {"method": "fit", "kw": {"fit_intercept": b(), "copy_X": b()}, "targets": r.choice([1, 1, 2])}
+    if entry == "PCA":
+        return {"method": r.choice(["fit", "fit", "fit_transform"]),
+                "kw": {"n_components": r.choice([None, 1, min(2, d), d, 0.8]), "centered": b(), "whiten": b(), "copy": b()}}
+    if entry == "RandomForestClassifier":
+        return {"method": "fit", "kw": {"n_estimators": r.randint(1, 4), "max_depth": r.randint(1, 4), "shuffle": b()},
+                "classes": r.choice([2, 2, 3])}
+    if entry == "DecisionTreeClassifier":
+        return {"method": "fit", "kw": {"max_depth": r.randint(1, 5)}, "classes": r.choice([2, 2, 3])}
+    return {"method": "fit", "kw": {"fit_intercept": b(), "C": r.choice([1.0, 0.1, 10.0]), "warm_start": b(),
+                                     "tol": r.choice([1e-4, 1e-2])}, "classes": r.choice([2, 2, 3])}
+
+
 def n_spends(sc):
     if sc["kind"] in ("scalar", "fit"):
         return 1
@@ -130,9 +188,10 @@ def make_accountants(sc):
     eps = sc["eps"]
     prior = [(p, 0) for p in sc["prior"]]
     st = sc["state"]
-    unl = BA()
+    TA = ACC_KINDS[sc.get("acc_kind", "plain")]
+    DA = ACC_KINDS[sc.get("decoy_kind", "plain")]
     if st == "unlimited":
-        target = BA(spent_budget=prior or None)
+        target = TA(spent_budget=prior or None)
     else:
         slack = 0.0
         delta = 0.0
@@ -153,18 +212,18 @@ def make_accountants(sc):
         else:
             ceil = c_eq * gen.SplitMix64(sc["seed"]).choice([1.0000001, 1.5, 4.0]) + (0.0 if prior else 0.0)
         try:
-            target = BA(ceil, delta, slack, spent_budget=prior or None)
+            target = TA(ceil, delta, slack, spent_budget=prior or None)
         except Exception:
             # the prior spends alone do not fit this ceiling (slack composition is not monotone in the list order)
-            target = BA(ceil, delta, slack)
+            target = TA(ceil, delta, slack)
             sc["prior"] = []
     dk = sc["decoy"]
     if dk == "unlimited":
-        decoy_default = BA()
+        decoy_default = DA()
     elif dk == "exhausted":
-        decoy_default = BA(eps * 0.5 + 0.2, 0, spent_budget=[(0.2, 0)])     # remaining 0.5 eps: refuses this query
+        decoy_default = DA(eps * 0.5 + 0.2, 0, spent_budget=[(0.2, 0)])     # remaining 0.5 eps: refuses this query
     else:
-        decoy_default = BA(eps * 10 + 1.0, 0, spent_budget=[(0.3, 0)])
+        decoy_default = DA(eps * 10 + 1.0, 0, spent_budget=[(0.3, 0)])
     decoy2 = BA(eps * 3, 0)
     return [target, decoy_default, decoy2]
 
@@ -174,33 +233,52 @@ def snapshot(accs):
 
 
 def model_args(sc):
+    """(constructor taking the accountant keyword dict, method name, positional arguments)"""
     rr = np.random.RandomState(sc["seed"] % (2 ** 31))
     d = sc["n_features"]
+    cfg = sc.get("config") or {"method": "fit", "kw": {}}
+    kw = dict(cfg.get("kw", {}))
     X = rr.rand(30, d)
-    y = (X[:, 0] > 0.5).astype(int)
-    y[:2] = [0, 1]
+    ncls = cfg.get("classes", 2)
+    y = np.minimum((X[:, 0] * ncls).astype(int), ncls - 1)
+    y[:ncls] = np.arange(ncls)
     yr = X @ np.arange(1, d + 1, dtype=float)
+    if cfg.get("targets", 1) == 2:
+        yr = np.stack([yr, X.sum(axis=1)], axis=1)
     b = (np.zeros(d), np.ones(d))
     M = dp.models
     name = sc["entry"]
     eps = sc["eps"]
     seed = sc["seed"] % 1000
+    method = cfg.get("method", "fit")
+    classes = list(range(ncls))
     if name == "GaussianNB":
-        return (lambda acc: M.GaussianNB(epsilon=eps, bounds=b, random_state=seed, **acc)), (X, y)
+        if kw.get("priors") is not None and ncls != 2:
+            kw["priors"] = None
+        args = (X, y, classes) if method == "partial_fit" else (X, y)
+        return (lambda acc: M.GaussianNB(epsilon=eps, bounds=b, random_state=seed, **kw, **acc)), method, args
     if name == "KMeans":
-        return (lambda acc: M.KMeans(n_clusters=2, epsilon=eps, bounds=b, random_state=seed, **acc)), (X,)
+        kw.setdefault("n_clusters", 2)
+        return (lambda acc: M.KMeans(epsilon=eps, bounds=b, random_state=seed, **kw, **acc)), method, (X,)
     if name == "StandardScaler":
-        return (lambda acc: M.StandardScaler(epsilon=eps, bounds=b, random_state=seed, **acc)), (X,)
+        return (lambda acc: M.StandardScaler(epsilon=eps, bounds=b, random_state=seed, **kw, **acc)), method, (X,)
     if name == "LinearRegression":
-        return (lambda acc: M.LinearRegression(epsilon=eps, bounds_X=b, bounds_y=(0, float(d * (d + 1) / 2)), random_state=seed, **acc)), (X, yr)
+        by = (0, float(d * (d + 1) / 2)) if cfg.get("targets", 1) == 1 else (np.zeros(2), np.array([d * (d + 1) / 2, float(d)]))
+        return (lambda acc: M.LinearRegression(epsilon=eps, bounds_X=b, bounds_y=by, random_state=seed, **kw, **acc)), method, (X, yr)
     if name == "PCA":
-        return (lambda acc: M.PCA(n_components=min(2, d), epsilon=eps, bounds=b, data_norm=float(d) ** 0.5, random_state=seed, **acc)), (X,)
+        nc = kw.pop("n_components", min(2, d))
+        if isinstance(nc, int) and nc > d:
+            nc = d
+        return (lambda acc: M.PCA(n_components=nc, epsilon=eps, bounds=b, data_norm=float(d) ** 0.5, random_state=seed,
+                                  **kw, **acc)), method, (X,)
     if name == "RandomForestClassifier":
-        return (lambda acc: M.RandomForestClassifier(n_estimators=3, max_depth=3, epsilon=eps, bounds=b, classes=[0, 1],
-                                                     random_state=seed, **acc)), (X, y)
+        kw.setdefault("n_estimators", 3)
+        kw.setdefault("max_depth", 3)
+        return (lambda acc: M.RandomForestClassifier(epsilon=eps, bounds=b, classes=classes, random_state=seed, **kw, **acc)), method, (X, y)
     if name == "DecisionTreeClassifier":
-        return (lambda acc: M.DecisionTreeClassifier(max_depth=3, epsilon=eps, bounds=b, classes=[0, 1], random_state=seed, **acc)), (X, y)
-    return (lambda acc: M.LogisticRegression(epsilon=eps, data_norm=float(d) ** 0.5, random_state=seed, **acc)), (X, y)
+        kw.setdefault("max_depth", 3)
+        return (lambda acc: M.DecisionTreeClassifier(epsilon=eps, bounds=b, classes=classes, random_state=seed, **kw, **acc)), method, (X, y)
+    return (lambda acc: M.LogisticRegression(epsilon=eps, data_norm=float(d) ** 0.5, random_state=seed, **kw, **acc)), method, (X, y)
 
 
 def state_repr(obj):
@@ -225,17 +303,21 @@ def tool_call(sc, acc_kw):
         n = 12
         w = rr.rand(n) if sc.get("weights") else None
         if entry == "histogram":
-            return lambda: fn(rr.rand(n), epsilon=eps, bins=sc["bins"], range=(0, 1), weights=w, random_state=rs, **acc_kw)
+            return lambda: fn(rr.rand(n), epsilon=eps, bins=sc["bins"], range=(0, 1), weights=w, density=sc.get("density"),
+                              random_state=rs, **acc_kw)
         if entry == "histogram2d":
             return lambda: fn(rr.rand(n), rr.rand(n), epsilon=eps, bins=sc["bins"], range=[(0, 1), (0, 1)], weights=w,
-                              random_state=rs, **acc_kw)
-        return lambda: fn(rr.rand(n, 2), epsilon=eps, bins=sc["bins"], range=[(0, 1), (0, 1)], weights=w, random_state=rs, **acc_kw)
+                              density=sc.get("density"), random_state=rs, **acc_kw)
+        return lambda: fn(rr.rand(n, 2), epsilon=eps, bins=sc["bins"], range=[(0, 1), (0, 1)], weights=w,
+                          density=sc.get("density"), random_state=rs, **acc_kw)
     arr = rr.rand(*sc["shape"])
     if sc.get("nan_data"):
         arr.ravel()[0] = np.nan
     kw = dict(epsilon=eps, axis=sc["axis"], keepdims=sc["keepdims"], random_state=rs, **acc_kw)
     if entry != "count_nonzero":
         kw["bounds"] = (0.0, 1.0)
+    if sc.get("dtype"):
+        kw["dtype"] = float
     if entry == "quantile":
         q = [0.5, 0.1, 0.9, 0.3, 0.7][:sc["quants"]] if sc["quants"] > 1 else 0.5
         return lambda: fn(arr, q, **kw)
@@ -262,6 +344,7 @@ def run_scenario(sc):
         except BudgetError:
             fits = False
         before = snapshot(accs)
+        audit0 = len(target.audit) if hasattr(target, "audit") else None
         if sc["kind"] in ("cells", "multiq") and math.isfinite(before[0][2]):
             # a multi-cell query is charged as its cell spends: "fits" = that very sequence fits (what `_check_cells` tests;
             # it can differ from the single-spend check by one rounding, in either direction)
@@ -278,7 +361,7 @@ def run_scenario(sc):
             warnings.simplefilter("ignore")
             with np.errstate(all="ignore"):
                 if sc["kind"] == "fit":
-                    mk, args = model_args(sc)
+                    mk, method, args = model_args(sc)
                     if mode == "explicit":
                         model = mk({"accountant": target})
                     elif mode == "with":
@@ -302,7 +385,7 @@ def run_scenario(sc):
                     state_before = state_repr(model)
                     with seams.interpose() as calls:
                         try:
-                            model.fit(*args)
+                            getattr(model, method)(*args)
                         except Exception as e:  # noqa
                             exc = e
                     n_calls = len(calls)
@@ -332,6 +415,7 @@ def run_scenario(sc):
         kind = "ok" if exc is None else ("budgetError" if isinstance(exc, BudgetError) else "other:" + type(exc).__name__)
         res = {"kind": kind, "calls": n_calls, "before": before, "after": after, "fits": fits, "dflt_construct": dflt_construct,
                "dflt_fit": dflt_fit, "exc": repr(exc)[:200] if exc else None}
+        res["audit_new"] = [(float(e), float(d)) for e, d in target.audit[audit0:]] if audit0 is not None else None
         res["state_changed"] = []
         if model is not None and exc is not None:
             sa = state_repr(model)
@@ -365,7 +449,8 @@ def verdict(sc, res):
     appended = ta[len(tb):] if ta[:len(tb)] == tb else None
     desc = f"{entry} ({sc['kind']}, {sc.get('layout', '')} cells={sc.get('cells', 1)} quants={sc.get('quants', 1)}) eps={eps!r} " \
            f"state={sc['state']} mode={sc['mode']}{'+nested-with-block' if sc.get('nested_with') else ''} " \
-           f"decoy-default={sc['decoy']} prior={sc['prior']}"
+           f"decoy-default={sc['decoy']} prior={sc['prior']} accountant={sc.get('acc_kind', 'plain')}" \
+           f"{' config=' + str(sc['config']) if sc.get('config') else ''}"
     if res["kind"].startswith("other"):
         return (f"C09:{entry}:unexpected-exception", f"{desc}: raised {res['exc']}")
     if appended is None or before[0][1:] != after[0][1:]:
@@ -374,6 +459,9 @@ def verdict(sc, res):
         return (f"C09:{entry}:wrong-accountant", f"{desc}: {', '.join(changed_other)} changed: "
                 f"{[after[i][0][len(before[i][0]):] for i in (1, 2)]} (target got {appended})")
     charged = sum(float(e) for e, _ in appended)
+    if res.get("audit_new") is not None and res["audit_new"] != [(float(e), float(d)) for e, d in appended]:
+        return (f"C09:{entry}:spend-bypassed", f"{desc}: the accountant's own spend() saw {res['audit_new'][:4]} but "
+                f"{appended[:4]} was recorded")
     if res["kind"] == "ok":
         if any(d != 0 for _, d in appended):
             return (f"C09:{entry}:delta-charged", f"{desc}: non-zero delta recorded: {appended[:4]}")
@@ -478,7 +566,7 @@ def sum_eps(snap):
 
 def key_of(sc, res):
     return (sc["entry"], sc["kind"], sc.get("layout"), sc.get("cells"), sc.get("quants"), sc["state"], sc["mode"], sc["decoy"],
-            res["kind"], len(sc["prior"]) > 0, bool(sc.get("nested_with")))
+            res["kind"], len(sc["prior"]) > 0, bool(sc.get("nested_with")), sc.get("acc_kind"), str(sc.get("config")))
 
 
 FOREST_WITNESS = {"entry": "RandomForestClassifier", "kind": "fit", "eps": 1.0, "state": "more", "mode": "explicit",
